@@ -6,6 +6,7 @@ from ..core import modules_for
 def run(ctx):
     q = ctx.tier == "quick"
     run_common(ctx, "C04", modules_for("C04"), stride=2 if q else 1, l1_scripts=250 if q else 2500)
+    run_common(ctx, "C04", ["SfProps.C04", "SfProps.C04Caf", "SfProps.C04W64", "SfProps.C04Aiff", "SfProps.C04Avr", "SfProps.C04Ircam", "SfProps.C04Paf", "SfProps.C04Svx"], stride=2 if q else 1, l1_scripts=250 if q else 2500)
     if not getattr(ctx, "replay", None):
         from .. import cafw64
         cafw64.campaign(ctx)      # CAF / W64 byte-exact container models (lean/SfModel/Caf.lean, W64.lean)
@@ -15,3 +16,5 @@ def run(ctx):
         aiff.run(ctx, found=bool(ctx.violations))
         from .. import small2       # HTK / WVE / MPC2K / PVF / MAT4 / MAT5 / XI container models (lean/SfModel/Small2.lean + one file each)
         small2.run(ctx, found=bool(ctx.violations))
+        from .. import small1        # AVR / IRCAM / PAF / SVX / VOC / NIST container models (lean/SfModel/SmallSession.lean + one file each)
+        small1.run(ctx, found=bool(ctx.violations))
